@@ -4,8 +4,9 @@ Streams
   sites   : AST scan of the anchored files for set-iteration sites -> Generated/SetSites.lean (translate);
             obligation `sites_registered` (every scanned site has a modelled kind) is proved by `decide`
   site-*  : per order site, the real function (API level or through a checked program) against the Lean site
-            function fed with the iteration order observed in this process (`perm=1`: the observed order is a
-            reordering of the expected set; `out=`: the text / member list must be reproduced exactly)
+            function: the repaired sites (keyword names, format keys, protocol members, `or` constraints) must give
+            exactly the model's text; the open sites (definition-node sets) are fed with the iteration order observed
+            in this process (`perm=1`: a reordering of the expected set; `out=`: reproduced exactly)
   memo    : Checker.make_type_object / ArgSpecCache.get_argspec / _get_generic_bases_cached driven with query
             histories; hit/miss/bypass trace and table size against `memoStep`; answers against a fresh checker
   proto   : TypedValue(P).can_assign(v, checker) along histories of queries (normal / set_exclude_any) over
@@ -18,6 +19,9 @@ Property search (direct, oracle = the implementation compared with itself under 
   generated programs are checked (i) in fresh subprocesses under several PYTHONHASHSEED values, (ii) several
   times in one process, (iii) after histories of other generated programs with one shared Checker; rendered
   diagnostics (line, column, code, full text, module tokens normalised, sorted by position only) must be equal.
+Classes still open in /repo: tryDefNodeOrder, defNodeSetOrder (order), cacheUnderFailedAssumption (history). The six
+classes repaired by a944eb3, 24b231d, da6a3f3, 5fee81d, e01ac16 are no longer accepted: a re-appearance is a new
+violation (their witnesses stay in corpus/C10.jsonl).
 """
 import ast, hashlib, importlib, io, itertools, json, os, re, subprocess, sys, textwrap, contextlib
 
@@ -89,9 +93,9 @@ ASSUMPTIONS = [
     "(KeyDetermines); the generated programs never vary them",
     "the model's fuel (number of (protocol, class) pairs + 2) stands for Python's unbounded recursion, which the "
     "recursion guard stops after at most that many nested calls",
-    "which variant of the protocol cache key the implementation has (pinned: value only; repaired: + mode + generic "
-    "arguments / no caching under assumptions) and whether the member loop sorts is read off the source of "
-    "TypeObject.can_assign / _is_compatible_with_protocol; the Lean driver runs the matching model variant",
+    "which variant of the protocol cache key the implementation has (/repo: value + mode + generic arguments, cached "
+    "also under assumptions = model `check`) is read off the source of TypeObject.can_assign; for any other variant "
+    "the Lean driver runs the matching `check2` and accepts no class",
 ]
 TRUSTED = [
     "Spec/CacheSpec.lean: `gfpCompat`/`sem` are validated against fresh answers of the implementation on every run (stream spec)",
@@ -722,7 +726,7 @@ def snip_kwargs(k, names):
 def snip_keys(k, keys, given):
     L = ["def f%d() -> None:" % k,
          "    print(%r %% {%s})" % (" ".join("%%(%s)s" % x for x in keys), ", ".join("%r: 1" % x for x in given))]
-    return Snippet("keys", L, elems=[x for x in keys if x not in given])
+    return Snippet("keys", L, elems=[x for x in keys if x not in given], keys=list(keys), given=list(given))
 
 
 def snip_proto(k, members, outcome, use):
@@ -909,6 +913,8 @@ class Batch:
 
     def kv(self, i):
         line = self.out[i]
+        if line.startswith("out="):
+            return {"out": line[4:]}
         if " out=" in line:
             head, out = line.split(" out=", 1)
             d = parse_kv(head)
@@ -942,28 +948,25 @@ def explain_requests(s, text, B):
         m = re.search(r"Got (?:an unexpected keyword argument|unexpected keyword arguments) (.*) \(code: incompatible_call\)$", first)
         if not m:
             return lambda: (False, "unexpected message shape")
-        order = _QUOTED.findall(m.group(1))
-        i = B.add("join", "kwargs", ",".join(order), ",".join(s.info["elems"]), "")
+        i = B.add("kwargs", ",".join(s.info["elems"]), "")   # every keyword of the call is extra: nothing consumed
         want = first[first.index("Got "):first.rindex(" (code:")]
-        return lambda: (B.kv(i)["perm"] == "1" and B.kv(i)["out"] == want, B.out[i])
+        return lambda: (B.kv(i)["out"] == want, B.out[i])
     if s.kind == "keys":
         m = re.search(r"No value specified for keys (.*) \(code: bad_format_string\)$", first)
         if not m:
             return lambda: (False, "unexpected message shape")
-        order = m.group(1).split(", ")
-        i = B.add("join", "keys", ",".join(order), ",".join(s.info["elems"]), "0")
-        return lambda: (B.kv(i)["perm"] == "1" and B.kv(i)["out"] == "No value specified for keys " + m.group(1), B.out[i])
+        i = B.add("keys", ",".join(s.info["keys"]), ",".join(s.info["given"]), "0")
+        return lambda: (B.kv(i)["out"] == "No value specified for keys " + m.group(1), B.out[i])
     if s.kind == "proto":
         m = re.search(r"(<mod>\.P\d+ \(Protocol with members (.*?)\))", first)
         if not m:
             return lambda: (False, "unexpected message shape")
-        order = _QUOTED.findall(m.group(2))
         k = s.info["k"]
-        i = B.add("join", "pstr", ",".join(order), ",".join(s.info["elems"]), "<mod>.P%d" % k)
-        j = B.add("pff", "<mod>.A%d" % k, ",".join(order), ",".join(s.info["elems"]),
+        i = B.add("pstr", "<mod>.P%d" % k, ",".join(s.info["elems"]))
+        j = B.add("pff", "<mod>.A%d" % k, ",".join(s.info["elems"]),
                   ",".join("%s=%s" % (a, b) for a, b in s.info["outcome"].items()))
         d0 = detail[0] if detail else "-"
-        return lambda: (B.kv(i)["perm"] == "1" and B.kv(i)["out"] == m.group(1) and B.kv(j)["out"] == d0, B.out[i] + " / " + B.out[j])
+        return lambda: (B.kv(i)["out"] == m.group(1) and B.kv(j)["out"] == d0, B.out[i] + " / " + B.out[j])
     if s.kind == "or":
         m = re.search(r"Revealed type is '(.*)' \(code: reveal_type\)$", first)
         if not m:
@@ -984,8 +987,8 @@ def explain_requests(s, text, B):
             for perm in itertools.permutations(range(len(nodes))):
                 node_vals.setdefault(",".join(str(x) for i in perm for x in nodes[i]), perm)
             node_vals = {v: k for k, v in node_vals.items()}
-        idxs = [(np, B.add("ornarrow", subtxt, vals, ",".join(map(str, o)), ",".join(map(str, tests))))
-                for np, vals in node_vals.items() for o in itertools.permutations(tests)]
+        # the constraints come in operand order (list(dict.fromkeys(...))); only the definition nodes are a set
+        idxs = [(np, B.add("ornarrow", subtxt, vals, ",".join(map(str, tests)))) for np, vals in node_vals.items()]
 
         def done():
             hits = set()
@@ -996,7 +999,7 @@ def explain_requests(s, text, B):
                     hits.add(np)
             if hits:
                 return True, "explained", hits
-            return False, "no order of the tests / definition nodes gives %r" % m.group(1)
+            return False, "no order of the definition nodes gives %r" % m.group(1)
         return done
     if s.kind == "defnodes":
         m = re.search(r"Revealed type is '(.*)' \(code: reveal_type\)$", first)
@@ -1028,8 +1031,10 @@ def explain_requests(s, text, B):
     return None
 
 
-ORDER_CLASS = {"kwargs": "joinExtraKwargs", "keys": "joinKeysLeft", "proto": "protocolMembersOrder",
-               "or": "orConstraintOrder", "try": "tryDefNodeOrder", "defnodes": "defNodeSetOrder"}
+# snippet kinds whose diagnostics a Lean site function must reproduce
+MODELLED = ("kwargs", "keys", "proto", "or", "try", "defnodes")
+# the order classes still open in /repo, by the hint handed to Lean `orderClass`
+ORDER_CLASS = {"try": "tryDefNodeOrder", "defnodes": "defNodeSetOrder"}
 
 
 def answer_bit(prog, rendering):
@@ -1068,20 +1073,22 @@ def api_sites(ctx, B, post):
         value = members[0] if len(members) == 1 else MultiValuedValue(members)
         orc = OrConstraint(tuple(Constraint(vn, ConstraintType.is_instance, True, t) for t in tests))
         cons = list(orc.apply())
-        order = [ids[c.value] for c in cons[0].value]   # the list(set(constraints)) this process produced
+        order = [ids[c.value] for c in cons[0].value]   # list(dict.fromkeys(constraints)): must be the operand order
         res = _constrain_value([value], cons)
         got = ",".join("any" if isinstance(v, AnyValue) else str(ids[v.typ]) for v in flatten_values(res))
+        if order != [ids[t] for t in tests]:
+            got = "constraints reordered: %s" % order
         vals = ",".join("any" if isinstance(v, AnyValue) else str(ids[v.typ]) for v in flatten_values(value))
-        i = B.add("ornarrow", subtxt, vals, ",".join(map(str, order)), ",".join(str(ids[t]) for t in tests))
+        i = B.add("ornarrow", subtxt, vals, ",".join(str(ids[t]) for t in tests))
         case = {"site": "OrConstraint.apply", "tests": [t.__name__ for t in tests], "value": str(value), "order": order}
         ctx.count(1, site_ornarrow=1)
         if len(tests) > 1:
-            ctx.nontriv("ornarrow|%s|%s" % (vals, sorted(order)))
+            ctx.nontriv("ornarrow|%s|%s" % (vals, order))
 
         def chk(i=i, got=got, case=case):
             kv = B.kv(i)
             ctx.corr("site-ornarrow")
-            if kv.get("perm") != "1" or kv.get("out") != got:
+            if kv.get("out") != got:
                 ctx.disagree("site-ornarrow", case, got, B.out[i])
         post.append(chk)
     # --- intersect_bounds_maps: the set of bound tuples per type variable
@@ -1382,7 +1389,7 @@ def e2e(ctx, B, post, worlds, with_model):
         for label, n, r, _ in [("base", n, base[n], None) for n in range(len(programs))] + runs:
             for d in r:
                 s = programs[n].snippet_at(d[0])
-                if s is None or s.kind not in ORDER_CLASS:
+                if s is None or s.kind not in MODELLED:
                     continue
                 if s.kind in ("or", "try", "defnodes") and d[2] != "reveal_type":
                     continue
@@ -1515,20 +1522,15 @@ def e2e(ctx, B, post, worlds, with_model):
             for line, col, ta, tb in diffs:
                 s = p.snippet_at(line)
                 cls, conforms = None, True
-                if s is not None and s.kind == "mode" and with_model:
-                    cls, conforms = ("pending", "proto", ta, tb), True   # typeshed protocol: member list in the head line
-                if s is not None and s.kind in ORDER_CLASS and with_model:
-                    # both texts must be possible outputs of the site model, and the difference order-only (Lean)
+                # Only the definition-node sites still let an order through: try / defnodes snippets, and `or` snippets
+                # over a declared union (visit_BoolOp leaves several definition nodes). Both texts must be possible
+                # outputs of the site model, and the difference order-only (Lean). Anything else is outside every class.
+                open_site = s is not None and (s.kind in ORDER_CLASS or (s.kind == "or" and not isinstance(s.info["declared"], str)))
+                if open_site and with_model:
                     ka = [k for k in explained if k[0] == n and k[1] == id(s) and k[2] in ta]
                     kb = [k for k in explained if k[0] == n and k[1] == id(s) and k[2] in tb]
                     conforms = bool(ka) and bool(kb) and all(ok_text[k] for k in ka + kb)
-                    hint = s.kind
-                    if s.kind == "or" and conforms and not isinstance(s.info["declared"], str):
-                        na = set().union(*[ok_nodes[k] or set() for k in ka])
-                        nb = set().union(*[ok_nodes[k] or set() for k in kb])
-                        if not (na & nb):
-                            hint = "defnodes"   # no common order of the definition nodes explains both renderings
-                    cls = ("pending", hint, ta, tb)
+                    cls = ("pending", "defnodes" if s.kind == "or" else s.kind, ta, tb)
                 if cls is None and os.environ.get("C10_DEBUG"):
                     print("DEBUG2", line, s and s.kind, s and (s.first, s.last), with_model, [(x.kind, x.first, x.last) for x in p.snippets], file=sys.stderr)
                 key = (s.kind if s else None, label[:4])
@@ -1681,7 +1683,7 @@ def _run(ctx, with_model):
         idx = []
         for case, what, cls, conforms in pending:
             if cls is not None:
-                idx.append(B2.add("cls", cls[1] if cls[1] in ("or", "try", "defnodes") else "", cls[2], cls[3]))
+                idx.append(B2.add("cls", cls[1], cls[2], cls[3]))
             else:
                 idx.append(None)
         B2.run()
